@@ -1,15 +1,13 @@
-import Spk.Machine2 -- (spike: module Spk.Machine2 = spikes/Machine.lean)
+import Spk.Machine3 -- (spike: module Spk.Machine3 = spikes/Machine.lean)
 /-
-Spike: the explicit call stack of `BitMachine::exec_with_tracker` is the defunctionalised `run`.
+Spike: the explicit call stack of `BitMachine::exec_with_tracker` is the defunctionalised `run`
+(all node kinds, including disconnect's `CopyFwd`).
 -/
-namespace BM2
+namespace BM3
 
 @[simp] theorem ok_bind'' {ε α β} (x : α) (f : α → Except ε β) : (Except.ok x >>= f) = f x := rfl
 @[simp] theorem err_bind'' {ε α β} (e : ε) (f : α → Except ε β) :
     ((Except.error e : Except ε α) >>= f) = Except.error e := rfl
-@[simp] theorem map_ok {ε α β} (f : α → β) (x : α) : f <$> (Except.ok x : Except ε α) = Except.ok (f x) := rfl
-@[simp] theorem map_err {ε α β} (f : α → β) (e : ε) :
-    f <$> (Except.error e : Except ε α) = Except.error e := rfl
 @[simp] theorem pure_ok {ε α} (x : α) : (pure x : Except ε α) = Except.ok x := rfl
 
 /-- a term with its types packed, as `CallStack::Goto(&RedeemNode)` -/
@@ -22,7 +20,10 @@ inductive Item
   | goto (t : AnyTerm)
   | moveWriteFrameToRead
   | dropReadFrame
+  | copyFwd (n : Nat)
   | back (n : Nat)
+
+def copyFwd (n : Nat) (m : M) : Except Err M := do let m ← copy n m; fwd n m
 
 /-- the action of one node: machine update and the items pushed on the call stack, in the order in
 which they will be *executed* (the Rust code pushes them in reverse) -/
@@ -52,29 +53,47 @@ def node : {a b : Ty} → Term a b → M → Except Err (M × List Item)
       else do
         let m ← fwd (1 + padL a b) m
         pure (m, [.goto ⟨_, _, s⟩, .back (1 + padL a b)])
+  | _, _, @Term.assertl a b _ _ s, m => do
+      let bit ← peek m
+      if bit then .error .fail
+      else do
+        let m ← fwd (1 + padL a b) m
+        pure (m, [.goto ⟨_, _, s⟩, .back (1 + padL a b)])
+  | _, _, @Term.assertr a b _ _ t, m => do
+      let bit ← peek m
+      if bit then do
+        let m ← fwd (1 + padR a b) m
+        pure (m, [.goto ⟨_, _, t⟩, .back (1 + padR a b)])
+      else .error .fail
   | _, _, .pair s t, m => pure (m, [.goto ⟨_, _, s⟩, .goto ⟨_, _, t⟩])
   | _, _, .fail, _ => .error .fail
+  | _, b, .witness w, m => do let m ← writeBits (padded b w) m; pure (m, [])
+  | _, b, .word w, m => do let m ← writeBits (padded b w) m; pure (m, [])
+  | a, b, .jet jf f, m => do let m ← run (.jet (a := a) (b := b) jf f) m; pure (m, [])
+  | _, _, @Term.disconnect a b c _ w cw s t, m => do
+      let m ← newWrite (w.bw + a.bw) m
+      let m ← writeBits (padded w cw) m
+      let m ← copy a.bw m
+      let m ← moveWriteToRead m
+      let m ← newWrite (b.bw + c.bw) m
+      pure (m, [.goto ⟨_, _, s⟩, .moveWriteFrameToRead, .copyFwd b.bw, .goto ⟨_, _, t⟩,
+                .dropReadFrame, .dropReadFrame])
+
+def stepItem : Item → M → Except Err (M × List Item)
+  | .goto t, m => node t.t m
+  | .moveWriteFrameToRead, m => do let m ← moveWriteToRead m; pure (m, [])
+  | .dropReadFrame, m => do let m ← dropRead m; pure (m, [])
+  | .copyFwd n, m => do let m ← copyFwd n m; pure (m, [])
+  | .back n, m => do let m ← back n m; pure (m, [])
 
 /-- the main loop, with fuel; `none` = out of fuel -/
 def loop : Nat → List Item → M → Option (Except Err M)
   | 0, _, _ => none
   | _+1, [], m => some (.ok m)
-  | f+1, .goto t :: st, m =>
-    match node t.t m with
+  | f+1, it :: st, m =>
+    match stepItem it m with
     | .error e => some (.error e)
     | .ok (m', items) => loop f (items ++ st) m'
-  | f+1, .moveWriteFrameToRead :: st, m =>
-    match moveWriteToRead m with
-    | .error e => some (.error e)
-    | .ok m' => loop f st m'
-  | f+1, .dropReadFrame :: st, m =>
-    match dropRead m with
-    | .error e => some (.error e)
-    | .ok m' => loop f st m'
-  | f+1, .back n :: st, m =>
-    match back n m with
-    | .error e => some (.error e)
-    | .ok m' => loop f st m'
 
 theorem loop_mono : ∀ (f : Nat) (st : List Item) (m : M) (r : Except Err M),
     loop f st m = some r → loop (f+1) st m = some r := by
@@ -86,250 +105,178 @@ theorem loop_mono : ∀ (f : Nat) (st : List Item) (m : M) (r : Except Err M),
     cases st with
     | nil => simpa [loop] using h
     | cons it st =>
-      cases it with
-      | goto t =>
-        simp only [loop] at h ⊢
-        cases hn : node t.t m with
-        | error e => simpa [hn] using h
-        | ok p => obtain ⟨m', items⟩ := p; simp only [hn] at h ⊢; exact ih _ _ _ h
-      | moveWriteFrameToRead =>
-        simp only [loop] at h ⊢
-        cases hn : moveWriteToRead m with
-        | error e => simpa [hn] using h
-        | ok m' => simp only [hn] at h ⊢; exact ih _ _ _ h
-      | dropReadFrame =>
-        simp only [loop] at h ⊢
-        cases hn : dropRead m with
-        | error e => simpa [hn] using h
-        | ok m' => simp only [hn] at h ⊢; exact ih _ _ _ h
-      | back n =>
-        simp only [loop] at h ⊢
-        cases hn : back n m with
-        | error e => simpa [hn] using h
-        | ok m' => simp only [hn] at h ⊢; exact ih _ _ _ h
+      simp only [loop] at h ⊢
+      cases hn : stepItem it m with
+      | error e => simpa [hn] using h
+      | ok p => obtain ⟨m', items⟩ := p; simp only [hn] at h ⊢; exact ih _ _ _ h
 
-theorem loop_mono' {f g : Nat} (hfg : f ≤ g) {st : List Item} {m : M} {r : Except Err M}
-    (h : loop f st m = some r) : loop g st m = some r := by
-  induction hfg with
-  | refl => exact h
-  | step _ ih => exact loop_mono _ _ _ _ ih
-
-/-- fuel-free semantics of the loop: running the call stack `st` from `m` yields `r` -/
+/-- fuel-free semantics of the loop -/
 inductive Runs : List Item → M → Except Err M → Prop
   | nil {m} : Runs [] m (.ok m)
-  | gotoErr {t st m e} : node t.t m = .error e → Runs (.goto t :: st) m (.error e)
-  | gotoOk {t st m m' items r} : node t.t m = .ok (m', items) → Runs (items ++ st) m' r →
-      Runs (.goto t :: st) m r
-  | mvErr {st m e} : moveWriteToRead m = .error e → Runs (.moveWriteFrameToRead :: st) m (.error e)
-  | mvOk {st m m' r} : moveWriteToRead m = .ok m' → Runs st m' r → Runs (.moveWriteFrameToRead :: st) m r
-  | dropErr {st m e} : dropRead m = .error e → Runs (.dropReadFrame :: st) m (.error e)
-  | dropOk {st m m' r} : dropRead m = .ok m' → Runs st m' r → Runs (.dropReadFrame :: st) m r
-  | backErr {n st m e} : back n m = .error e → Runs (.back n :: st) m (.error e)
-  | backOk {n st m m' r} : back n m = .ok m' → Runs st m' r → Runs (.back n :: st) m r
+  | err {it st m e} : stepItem it m = .error e → Runs (it :: st) m (.error e)
+  | ok {it st m m' items r} : stepItem it m = .ok (m', items) → Runs (items ++ st) m' r →
+      Runs (it :: st) m r
 
-/-- the relation is what the fuelled loop computes -/
 theorem loop_of_runs {st m r} (h : Runs st m r) : ∃ f, loop f st m = some r := by
   induction h with
   | nil => exact ⟨1, rfl⟩
-  | gotoErr hn => exact ⟨1, by simp [loop, hn]⟩
-  | gotoOk hn _ ih => obtain ⟨f, hf⟩ := ih; exact ⟨f+1, by simp [loop, hn, hf]⟩
-  | mvErr hn => exact ⟨1, by simp [loop, hn]⟩
-  | mvOk hn _ ih => obtain ⟨f, hf⟩ := ih; exact ⟨f+1, by simp [loop, hn, hf]⟩
-  | dropErr hn => exact ⟨1, by simp [loop, hn]⟩
-  | dropOk hn _ ih => obtain ⟨f, hf⟩ := ih; exact ⟨f+1, by simp [loop, hn, hf]⟩
-  | backErr hn => exact ⟨1, by simp [loop, hn]⟩
-  | backOk hn _ ih => obtain ⟨f, hf⟩ := ih; exact ⟨f+1, by simp [loop, hn, hf]⟩
+  | err hn => exact ⟨1, by simp [loop, hn]⟩
+  | ok hn _ ih => obtain ⟨f, hf⟩ := ih; exact ⟨f+1, by simp [loop, hn, hf]⟩
 
-theorem bind_ok_inv' {ε α β} {x : Except ε α} {f : α → Except ε β} {b : β}
-    (h : (x >>= f) = .ok b) : ∃ a, x = .ok a ∧ f a = .ok b := by
-  cases x with
-  | error e => cases h
-  | ok a => exact ⟨a, rfl, h⟩
+/-- "`x`, and if it succeeds continue with `k`; if it fails, that is the result" -/
+def Then {α} (x : Except Err α) (k : α → Except Err M → Prop) (res : Except Err M) : Prop :=
+  match x with
+  | .ok a => k a res
+  | .error e => res = .error e
 
-theorem bind_err_inv {ε α β} {x : Except ε α} {f : α → Except ε β} {e : ε}
-    (h : (x >>= f) = .error e) : x = .error e ∨ ∃ a, x = .ok a ∧ f a = .error e := by
+theorem then_bind {α β} (x : Except Err α) (f : α → Except Err β) (k res) :
+    Then (x >>= f) k res ↔ Then x (fun a res => Then (f a) k res) res := by
+  cases x <;> rfl
+
+theorem Then.mono {α} {x : Except Err α} {k k' : α → Except Err M → Prop} {res}
+    (hk : ∀ a res, k a res → k' a res) (h : Then x k res) : Then x k' res := by
   cases x with
-  | error e' => left; cases h; rfl
-  | ok a => right; exact ⟨a, rfl, h⟩
+  | ok a => exact hk a res h
+  | error e => exact h
+
+@[simp] theorem then_ok {α} (a : α) (k res) : Then (.ok a : Except Err α) k res ↔ k a res := Iff.rfl
+@[simp] theorem then_err {α} (e) (k : α → Except Err M → Prop) (res) :
+    Then (.error e : Except Err α) k res ↔ res = .error e := Iff.rfl
+
+theorem runs_step {it st m res}
+    (h : Then (stepItem it m) (fun p res => Runs (p.2 ++ st) p.1 res) res) : Runs (it :: st) m res := by
+  cases hs : stepItem it m with
+  | error e => rw [hs] at h; cases h; exact .err hs
+  | ok p => rw [hs] at h; obtain ⟨m', items⟩ := p; exact .ok hs h
+
+theorem runs_simple {it st m res} (op : M → Except Err M)
+    (hop : ∀ m, stepItem it m = (do let m ← op m; pure (m, []))) (h : Then (op m) (Runs st) res) :
+    Runs (it :: st) m res := by
+  apply runs_step
+  rw [hop, then_bind]
+  exact h.mono (fun a res hk => by simpa using hk)
+
+theorem runs_mv {st m res} (h : Then (moveWriteToRead m) (Runs st) res) :
+    Runs (.moveWriteFrameToRead :: st) m res := runs_simple _ (fun _ => rfl) h
+theorem runs_drop {st m res} (h : Then (dropRead m) (Runs st) res) :
+    Runs (.dropReadFrame :: st) m res := runs_simple _ (fun _ => rfl) h
+theorem runs_back {n st m res} (h : Then (back n m) (Runs st) res) :
+    Runs (.back n :: st) m res := runs_simple _ (fun _ => rfl) h
+theorem runs_copyFwd {n st m res} (h : Then (copyFwd n m) (Runs st) res) :
+    Runs (.copyFwd n :: st) m res := runs_simple _ (fun _ => rfl) h
 
 /-- executing `goto t` on top of a call stack is `run t` followed by the rest of the stack -/
-theorem runs_goto : ∀ {a b : Ty} (t : Term a b) (m : M) (st : List Item),
-    (∀ m' r, run t m = .ok m' → Runs st m' r → Runs (.goto ⟨a, b, t⟩ :: st) m r) ∧
-    (∀ e, run t m = .error e → Runs (.goto ⟨a, b, t⟩ :: st) m (.error e)) := by
+theorem runs_goto : ∀ {a b : Ty} (t : Term a b) (m : M) (st : List Item) (res : Except Err M),
+    Then (run t m) (Runs st) res → Runs (.goto ⟨a, b, t⟩ :: st) m res := by
   intro a b t
   induction t with
   | iden =>
-    intro m st
-    constructor
-    · intro m' r h hr
-      exact .gotoOk (t := ⟨_, _, .iden⟩) (m' := m') (items := []) (by simp [node, show copy _ m = .ok m' from h]) hr
-    · intro e h
-      exact .gotoErr (t := ⟨_, _, .iden⟩) (by simp [node, show copy _ m = .error e from h])
-  | unit =>
-    intro m st
-    constructor
-    · intro m' r h hr; cases h
-      exact .gotoOk (t := ⟨_, _, .unit⟩) (m' := m) (items := []) rfl hr
-    · intro e h; cases h
-  | @injl a b c t ih =>
-    intro m st
-    constructor
-    · intro m' r h hr
-      simp only [run] at h
-      obtain ⟨m1, h1, h⟩ := bind_ok_inv' h
-      obtain ⟨m2, h2, h⟩ := bind_ok_inv' h
-      exact .gotoOk (t := ⟨_, _, .injl t⟩) (m' := m2) (items := [.goto ⟨_, _, t⟩])
-        (by simp [node, h1, h2]) ((ih m2 st).1 m' r h hr)
-    · intro e h
-      simp only [run] at h
-      rcases bind_err_inv h with h1 | ⟨m1, h1, h⟩
-      · exact .gotoErr (t := ⟨_, _, .injl t⟩) (by simp [node, h1])
-      · rcases bind_err_inv h with h2 | ⟨m2, h2, h⟩
-        · exact .gotoErr (t := ⟨_, _, .injl t⟩) (by simp [node, h1, h2])
-        · exact .gotoOk (t := ⟨_, _, .injl t⟩) (m' := m2) (items := [.goto ⟨_, _, t⟩])
-            (by simp [node, h1, h2]) ((ih m2 st).2 e h)
-  | @injr a b c t ih =>
-    intro m st
-    constructor
-    · intro m' r h hr
-      simp only [run] at h
-      obtain ⟨m1, h1, h⟩ := bind_ok_inv' h
-      obtain ⟨m2, h2, h⟩ := bind_ok_inv' h
-      exact .gotoOk (t := ⟨_, _, .injr t⟩) (m' := m2) (items := [.goto ⟨_, _, t⟩])
-        (by simp [node, h1, h2]) ((ih m2 st).1 m' r h hr)
-    · intro e h
-      simp only [run] at h
-      rcases bind_err_inv h with h1 | ⟨m1, h1, h⟩
-      · exact .gotoErr (t := ⟨_, _, .injr t⟩) (by simp [node, h1])
-      · rcases bind_err_inv h with h2 | ⟨m2, h2, h⟩
-        · exact .gotoErr (t := ⟨_, _, .injr t⟩) (by simp [node, h1, h2])
-        · exact .gotoOk (t := ⟨_, _, .injr t⟩) (m' := m2) (items := [.goto ⟨_, _, t⟩])
-            (by simp [node, h1, h2]) ((ih m2 st).2 e h)
+    intro m st res h; apply runs_step
+    simp only [stepItem, node, run, then_bind] at h ⊢
+    exact h.mono (fun a res hk => by simpa using hk)
+  | unit => intro m st res h; apply runs_step; simpa [stepItem, node, run] using h
+  | injl t ih =>
+    intro m st res h; apply runs_step
+    simp only [stepItem, node, run, then_bind] at h ⊢
+    refine h.mono fun m1 res h => h.mono fun m2 res h => ?_
+    simp only [pure_ok, then_ok, List.cons_append, List.nil_append]
+    exact ih _ _ _ h
+  | injr t ih =>
+    intro m st res h; apply runs_step
+    simp only [stepItem, node, run, then_bind] at h ⊢
+    refine h.mono fun m1 res h => h.mono fun m2 res h => ?_
+    simp only [pure_ok, then_ok, List.cons_append, List.nil_append]
+    exact ih _ _ _ h
   | take t ih =>
-    intro m st
-    constructor
-    · intro m' r h hr
-      exact .gotoOk (t := ⟨_, _, .take t⟩) (m' := m) (items := [.goto ⟨_, _, t⟩]) rfl
-        ((ih m st).1 m' r h hr)
-    · intro e h
-      exact .gotoOk (t := ⟨_, _, .take t⟩) (m' := m) (items := [.goto ⟨_, _, t⟩]) rfl
-        ((ih m st).2 e h)
-  | @drop a b c t ih =>
-    intro m st
-    constructor
-    · intro m' r h hr
-      simp only [run] at h
-      obtain ⟨m1, h1, h⟩ := bind_ok_inv' h
-      obtain ⟨m2, h2, h⟩ := bind_ok_inv' h
-      exact .gotoOk (t := ⟨_, _, .drop t⟩) (m' := m1) (items := [.goto ⟨_, _, t⟩, .back a.bw])
-        (by simp [node, h1]) ((ih m1 (.back a.bw :: st)).1 m2 r h2 (.backOk h hr))
-    · intro e h
-      simp only [run] at h
-      rcases bind_err_inv h with h1 | ⟨m1, h1, h⟩
-      · exact .gotoErr (t := ⟨_, _, .drop t⟩) (by simp [node, h1])
-      · rcases bind_err_inv h with h2 | ⟨m2, h2, h⟩
-        · exact .gotoOk (t := ⟨_, _, .drop t⟩) (m' := m1) (items := [.goto ⟨_, _, t⟩, .back a.bw])
-            (by simp [node, h1]) ((ih m1 _).2 e h2)
-        · exact .gotoOk (t := ⟨_, _, .drop t⟩) (m' := m1) (items := [.goto ⟨_, _, t⟩, .back a.bw])
-            (by simp [node, h1]) ((ih m1 _).1 m2 _ h2 (.backErr h))
-  | @comp a b c s t ihs iht =>
-    intro m st
-    constructor
-    · intro m' r h hr
-      simp only [run] at h
-      obtain ⟨m1, h1, h⟩ := bind_ok_inv' h
-      obtain ⟨m2, h2, h⟩ := bind_ok_inv' h
-      obtain ⟨m3, h3, h⟩ := bind_ok_inv' h
-      obtain ⟨m4, h4, h⟩ := bind_ok_inv' h
-      exact .gotoOk (t := ⟨_, _, .comp s t⟩) (m' := m1)
-        (items := [.goto ⟨_, _, s⟩, .moveWriteFrameToRead, .goto ⟨_, _, t⟩, .dropReadFrame])
-        (by simp [node, h1])
-        ((ihs m1 _).1 m2 r h2 (.mvOk h3 ((iht m3 _).1 m4 r h4 (.dropOk h hr))))
-    · intro e h
-      simp only [run] at h
-      rcases bind_err_inv h with h1 | ⟨m1, h1, h⟩
-      · exact .gotoErr (t := ⟨_, _, .comp s t⟩) (by simp [node, h1])
-      · refine .gotoOk (t := ⟨_, _, .comp s t⟩) (m' := m1)
-          (items := [.goto ⟨_, _, s⟩, .moveWriteFrameToRead, .goto ⟨_, _, t⟩, .dropReadFrame])
-          (by simp [node, h1]) ?_
-        rcases bind_err_inv h with h2 | ⟨m2, h2, h⟩
-        · exact (ihs m1 _).2 e h2
-        · refine (ihs m1 _).1 m2 _ h2 ?_
-          rcases bind_err_inv h with h3 | ⟨m3, h3, h⟩
-          · exact .mvErr h3
-          · refine .mvOk h3 ?_
-            rcases bind_err_inv h with h4 | ⟨m4, h4, h⟩
-            · exact (iht m3 _).2 e h4
-            · exact (iht m3 _).1 m4 _ h4 (.dropErr h)
-  | @case a b c d s t ihs iht =>
-    intro m st
-    constructor
-    · intro m' r h hr
-      simp only [run] at h
-      obtain ⟨bit, hb, h⟩ := bind_ok_inv' h
-      cases bit with
-      | true =>
-        simp only [if_true] at h
-        obtain ⟨m1, h1, h⟩ := bind_ok_inv' h
-        obtain ⟨m2, h2, h⟩ := bind_ok_inv' h
-        exact .gotoOk (t := ⟨_, _, .case s t⟩) (m' := m1) (items := [.goto ⟨_, _, t⟩, .back (1 + padR a b)])
-          (by simp [node, hb, h1]) ((iht m1 _).1 m2 r h2 (.backOk h hr))
-      | false =>
-        simp only [Bool.false_eq_true, if_false] at h
-        obtain ⟨m1, h1, h⟩ := bind_ok_inv' h
-        obtain ⟨m2, h2, h⟩ := bind_ok_inv' h
-        exact .gotoOk (t := ⟨_, _, .case s t⟩) (m' := m1) (items := [.goto ⟨_, _, s⟩, .back (1 + padL a b)])
-          (by simp [node, hb, h1]) ((ihs m1 _).1 m2 r h2 (.backOk h hr))
-    · intro e h
-      simp only [run] at h
-      rcases bind_err_inv h with hb | ⟨bit, hb, h⟩
-      · exact .gotoErr (t := ⟨_, _, .case s t⟩) (by simp [node, hb])
-      · cases bit with
-        | true =>
-          simp only [if_true] at h
-          rcases bind_err_inv h with h1 | ⟨m1, h1, h⟩
-          · exact .gotoErr (t := ⟨_, _, .case s t⟩) (by simp [node, hb, h1])
-          · refine .gotoOk (t := ⟨_, _, .case s t⟩) (m' := m1)
-              (items := [.goto ⟨_, _, t⟩, .back (1 + padR a b)]) (by simp [node, hb, h1]) ?_
-            rcases bind_err_inv h with h2 | ⟨m2, h2, h⟩
-            · exact (iht m1 _).2 e h2
-            · exact (iht m1 _).1 m2 _ h2 (.backErr h)
-        | false =>
-          simp only [Bool.false_eq_true, if_false] at h
-          rcases bind_err_inv h with h1 | ⟨m1, h1, h⟩
-          · exact .gotoErr (t := ⟨_, _, .case s t⟩) (by simp [node, hb, h1])
-          · refine .gotoOk (t := ⟨_, _, .case s t⟩) (m' := m1)
-              (items := [.goto ⟨_, _, s⟩, .back (1 + padL a b)]) (by simp [node, hb, h1]) ?_
-            rcases bind_err_inv h with h2 | ⟨m2, h2, h⟩
-            · exact (ihs m1 _).2 e h2
-            · exact (ihs m1 _).1 m2 _ h2 (.backErr h)
+    intro m st res h; apply runs_step
+    simp only [stepItem, node, run, pure_ok, then_ok, List.cons_append, List.nil_append] at h ⊢
+    exact ih _ _ _ h
+  | drop t ih =>
+    intro m st res h; apply runs_step
+    simp only [stepItem, node, run, then_bind] at h ⊢
+    refine h.mono fun m1 res h => ?_
+    simp only [pure_ok, then_ok, List.cons_append, List.nil_append]
+    exact ih _ _ _ (h.mono fun m2 res h => runs_back h)
+  | comp s t ihs iht =>
+    intro m st res h; apply runs_step
+    simp only [stepItem, node, run, then_bind] at h ⊢
+    refine h.mono fun m1 res h => ?_
+    simp only [pure_ok, then_ok, List.cons_append, List.nil_append]
+    exact ihs _ _ _ (h.mono fun m2 res h => runs_mv (h.mono fun m3 res h =>
+      iht _ _ _ (h.mono fun m4 res h => runs_drop h)))
+  | case s t ihs iht =>
+    intro m st res h; apply runs_step
+    simp only [stepItem, node, run, then_bind] at h ⊢
+    refine h.mono fun bit res h => ?_
+    cases bit with
+    | true =>
+      simp only [if_true, then_bind] at h ⊢
+      refine h.mono fun m1 res h => ?_
+      simp only [pure_ok, then_ok, List.cons_append, List.nil_append]
+      exact iht _ _ _ (h.mono fun m2 res h => runs_back h)
+    | false =>
+      simp only [Bool.false_eq_true, if_false, then_bind] at h ⊢
+      refine h.mono fun m1 res h => ?_
+      simp only [pure_ok, then_ok, List.cons_append, List.nil_append]
+      exact ihs _ _ _ (h.mono fun m2 res h => runs_back h)
   | pair s t ihs iht =>
-    intro m st
-    constructor
-    · intro m' r h hr
-      simp only [run] at h
-      obtain ⟨m1, h1, h⟩ := bind_ok_inv' h
-      exact .gotoOk (t := ⟨_, _, .pair s t⟩) (m' := m) (items := [.goto ⟨_, _, s⟩, .goto ⟨_, _, t⟩]) rfl
-        ((ihs m _).1 m1 r h1 ((iht m1 st).1 m' r h hr))
-    · intro e h
-      simp only [run] at h
-      refine .gotoOk (t := ⟨_, _, .pair s t⟩) (m' := m) (items := [.goto ⟨_, _, s⟩, .goto ⟨_, _, t⟩]) rfl ?_
-      rcases bind_err_inv h with h1 | ⟨m1, h1, h⟩
-      · exact (ihs m _).2 e h1
-      · exact (ihs m _).1 m1 _ h1 ((iht m1 st).2 e h)
-  | fail =>
-    intro m st
-    constructor
-    · intro m' r h; cases h
-    · intro e h; cases h
-      exact .gotoErr (t := ⟨_, _, .fail⟩) rfl
+    intro m st res h; apply runs_step
+    simp only [stepItem, node, run, then_bind, pure_ok, then_ok, List.cons_append, List.nil_append] at h ⊢
+    exact ihs _ _ _ (h.mono fun m1 res h => iht _ _ _ h)
+  | fail => intro m st res h; apply runs_step; simpa [stepItem, node, run] using h
+  | witness w =>
+    intro m st res h; apply runs_step
+    simp only [stepItem, node, run, then_bind] at h ⊢
+    exact h.mono (fun a res hk => by simpa using hk)
+  | word w =>
+    intro m st res h; apply runs_step
+    simp only [stepItem, node, run, then_bind] at h ⊢
+    exact h.mono (fun a res hk => by simpa using hk)
+  | jet jf f =>
+    intro m st res h; apply runs_step
+    simp only [stepItem, node, then_bind] at h ⊢
+    exact h.mono (fun a res hk => by simpa using hk)
+  | assertl s ih =>
+    intro m st res h; apply runs_step
+    simp only [stepItem, node, run, then_bind] at h ⊢
+    refine h.mono fun bit res h => ?_
+    cases bit with
+    | true => simpa using h
+    | false =>
+      simp only [Bool.false_eq_true, if_false, then_bind] at h ⊢
+      refine h.mono fun m1 res h => ?_
+      simp only [pure_ok, then_ok, List.cons_append, List.nil_append]
+      exact ih _ _ _ (h.mono fun m2 res h => runs_back h)
+  | assertr t ih =>
+    intro m st res h; apply runs_step
+    simp only [stepItem, node, run, then_bind] at h ⊢
+    refine h.mono fun bit res h => ?_
+    cases bit with
+    | false => simpa using h
+    | true =>
+      simp only [if_true, then_bind] at h ⊢
+      refine h.mono fun m1 res h => ?_
+      simp only [pure_ok, then_ok, List.cons_append, List.nil_append]
+      exact ih _ _ _ (h.mono fun m2 res h => runs_back h)
+  | disconnect w cw s t ihs iht =>
+    intro m st res h; apply runs_step
+    simp only [stepItem, node, run, then_bind] at h ⊢
+    refine h.mono fun m1 res h => h.mono fun m2 res h => h.mono fun m3 res h =>
+      h.mono fun m4 res h => h.mono fun m5 res h => ?_
+    simp only [pure_ok, then_ok, List.cons_append, List.nil_append]
+    refine ihs _ _ _ (h.mono fun m6 res h => runs_mv (h.mono fun m7 res h => runs_copyFwd ?_))
+    simp only [copyFwd, then_bind]
+    exact h.mono fun m8 res h => h.mono fun m9 res h =>
+      iht _ _ _ (h.mono fun m10 res h => runs_drop (h.mono fun m11 res h => runs_drop h))
 
 /-- **the explicit call stack computes `run`**: starting the loop on `[goto t]` gives `run t m` -/
 theorem loop_eq_run {a b : Ty} (t : Term a b) (m : M) :
     ∃ f, loop f [.goto ⟨a, b, t⟩] m = some (run t m) := by
+  apply loop_of_runs
+  apply runs_goto
   cases h : run t m with
-  | ok m' => exact loop_of_runs ((runs_goto t m []).1 m' _ h .nil)
-  | error e => exact loop_of_runs ((runs_goto t m []).2 e h)
+  | ok m' => exact .nil
+  | error e => rfl
 
 #print axioms loop_eq_run
-end BM2
+end BM3
